@@ -1338,6 +1338,26 @@ carquet_status_t parquet_write_file_metadata(
         return CARQUET_ERROR_INVALID_ARGUMENT;
     }
 
+    /* The parser above refuses footers beyond its limits: do not write one */
+    if (metadata->num_schema_elements > CARQUET_MAX_SCHEMA_ELEMENTS ||
+        metadata->num_row_groups > CARQUET_MAX_ROW_GROUPS ||
+        metadata->num_key_value > CARQUET_MAX_KEY_VALUE_PAIRS) {
+        CARQUET_SET_ERROR(error, CARQUET_ERROR_INVALID_METADATA,
+            "Metadata exceeds the limits of the footer parser "
+            "(%d schema elements, %d row groups, %d key-value pairs)",
+            (int)metadata->num_schema_elements, (int)metadata->num_row_groups,
+            (int)metadata->num_key_value);
+        return CARQUET_ERROR_INVALID_METADATA;
+    }
+    for (int32_t i = 0; i < metadata->num_row_groups; i++) {
+        if (metadata->row_groups[i].num_columns > CARQUET_MAX_COLUMNS_PER_RG) {
+            CARQUET_SET_ERROR(error, CARQUET_ERROR_INVALID_METADATA,
+                "Row group %d has %d columns (limit %d)", (int)i,
+                (int)metadata->row_groups[i].num_columns, CARQUET_MAX_COLUMNS_PER_RG);
+            return CARQUET_ERROR_INVALID_METADATA;
+        }
+    }
+
     thrift_encoder_t enc;
     thrift_encoder_init(&enc, buffer);
 
